@@ -56,7 +56,7 @@ var c07Fixed = []string{
 	`a*`, `\b`, `(?=a)`, `(?<=a)`, `\G`, `^`, `$`, `(a|)`, `(?<!a)`, `a*?`, `(?m)^`, `(?m)$`, `\B`, `(?:a|b)*`,
 	`(a*)*`, `(?<=a*)`, `\Ga`, `\G(?:a|)`, ``, `a?`, `(?!a)`, `b*|a`, `(?<=b)|a`, `\G\b`, `(?<=\Ga)`, `a|\b`,
 	`(?<=a)(?=b)`, `\z`, `\A`, `\Z`, `(|a)+`, `(a|b|)`, `[ab]*?b?`, `(?<!^)`, `(?=.)`, `(?<=.)`, `.??`, `a{0,2}`,
-	`(?<=(a))b*`, `(?:\b|a)`, `\Ga*`, `(?:\G|b)a*`, `é*`, `\d*`, `(?<=\b)a*`, `(?i)A*`, `(?s).*?`, `(?=a*b)`, `x*`,
+		`(?i)(\w)\1`, `(?<=\1(a))x?`, `(?i)(a)\1|b`, `(\w)(?<=\1)`, `(?<=(a))b*`, `(?:\b|a)`, `\Ga*`, `(?:\G|b)a*`, `é*`, `\d*`, `(?<=\b)a*`, `(?i)A*`, `(?s).*?`, `(?=a*b)`, `x*`,
 }
 
 // the witnesses of the two defects fixed in eb87fbc stay in the deterministic corpus
@@ -68,6 +68,9 @@ type c07Witness struct {
 var c07Witnesses = []c07Witness{
 	{`a*`, "baaab", true}, {`a*`, "baaab", false}, {`a`, "b", false}, {`a`, "b", true}, {`a*`, "", true}, {`a*`, "", false},
 	{`\b`, "ab c", true}, {`(?<=a)`, "aab", true}, {`a|`, "ba", true},
+	// groups kept alive only by a back-reference carrying a modifier bit (IgnoreCase, right-to-left, inside a lookbehind):
+	// the find-all calls run the capture-pruned program and must still agree with the FindNextMatch chain
+	{`(?i)(\w)\1`, "aAbBcd", false}, {`(?<=\1(a))x`, "aaxax", false}, {`\1(a)`, "baab", true}, {`(?i)(a)\1`, "aaaa", false}, {`(?i)(a)\1`, "aAAa", true}, {`(a)(?<=\1)b?`, "aab", false},
 }
 
 func c07Harvest() []string {
